@@ -1,5 +1,6 @@
 import Parmcb.Model.Heap
 import Parmcb.Model.ApproxAlgo
+import Parmcb.Model.MpiAlgo
 /-
 The sequential entry points with the REAL priority queues (`Model/Heap.lean`) in place of the heap oracle:
 `mcb_sva_signed` (every `bidirectional_signed_dijkstra` runs on two literal 4-ary heaps) and the sequential approximate
@@ -61,6 +62,25 @@ def mcbSignedTbbH (g : Graph) (order : List Nat) (σ : Nat → List Nat → List
   let gi := reindex g fi
   let r := mcbSignedCore .signedTbb fi.dim (perm.map fun i => [i])
     (fun k S => signedPhaseSearchTbbH gi fi.reverse (σ k S) S (scheds k S))
+  { cycles := translateBack fi.reverse r.cycles, weight := r.weight }
+
+/-! ### `mcb_sva_signed_mpi` with literal heaps (rank 0's view) -/
+
+/-- `find_shortest_odd_cycle_mpi` on literal heaps: every rank reduces its slice under its own schedule, the rank results
+are combined along the tree `t` -/
+def signedPhaseSearchMpiH (g : Graph) (ord : List Nat) (S : List Nat) (scheds : Nat → Sched) (t : RTree) : Cyc (List Nat) :=
+  match S with
+  | [e] => singleEdgeTbbH g ord e
+  | _ =>
+    if S.length < g.n then mpiPhase (hiddenIndexTbbH g ord S S) scheds t
+    else mpiPhase (fun v L => searchSignedH g ord S [] v true v false L) scheds t
+
+def mcbSignedMpiH (g : Graph) (order : List Nat) (perm : List Nat)
+    (scheds : Nat → List Nat → Nat → Sched) (trees : Nat → List Nat → RTree) : McbResult :=
+  let fi := createIndex g order
+  let gi := reindex g fi
+  let r := mcbSignedCore .mpi fi.dim (perm.map fun i => [i])
+    (fun k S => signedPhaseSearchMpiH gi fi.reverse S (scheds k S) (trees k S))
   { cycles := translateBack fi.reverse r.cycles, weight := r.weight }
 
 /-- the cycle of one dropped edge, `parmcb::dijkstra` on a literal heap -/
